@@ -36,8 +36,8 @@ func init() {
 				return err
 			}
 			x.StrList("senderForBundleOps"+recv, c18LockOps(x, sfb))
-			// every statement of SenderForBundle that mentions the copy counter or the copies sent
-			x.StrList("senderForBundleCopies"+recv, c18Grep(x.Skeleton(sfb), "remainingCopies", "sendCopies", "break"))
+			// the whole control skeleton: `< 2` guards, skip of peers in sent, bookkeeping, `/ 2` split
+			x.StrList("senderForBundleSkeleton"+recv, x.Skeleton(sfb))
 
 			nb, err := x.Func(dir, recv, "NotifyNewBundle")
 			if err != nil {
